@@ -16,7 +16,10 @@ def tv_job(job):
         ct = yamlio.build_yaml(spec, roundtrip=(builder == 'yaml_roundtrip'))
     pre = job.get('pre')
     if pre:
-        ct = pre(ct, spec) or ct
+        try:
+            ct = pre(ct, spec) or ct
+        except tv.CompileError as e:
+            return dict(status='compile-raises', error=str(e))
     kw = dict(job.get('compile_kw', {}))
     if job.get('backend') == 'fortran':
         from . import f2pystub
